@@ -355,3 +355,10 @@ m('c04-on-kill-unguarded-again', 'C04', P, "        if self.future().done():\n  
 m('c02-future-replaced-while-pending', 'C02', P, "        if self.future().done():\n            self._future = persistence.SavableFuture(loop=self._loop)\n        self.future().set_exception(exceptions.KilledError(msg_txt))", "        self._future = persistence.SavableFuture(loop=self._loop)\n        self.future().set_exception(exceptions.KilledError(msg_txt))", 'fire', 'on_kill', 'waiters on the old future are never released')
 m('c01-bypass-outlives-transition', 'C01', SM, "        finally:\n            self._transition_failing = False\n            self._transitioning = False", "        finally:\n            self._transitioning = False", 'fire', 'transition_to')
 m('c01-bypass-raised-eagerly', 'C01', SM, "            self._transitioning = True\n            label = new_state.LABEL\n", "            self._transitioning = True\n            self._transition_failing = self._transition_failing or new_state.is_terminal()\n            label = new_state.LABEL\n", 'fire', 'transition_to')
+
+# ------------------------------------------------------------------ behaviour-preserving variants written by independent sub-agents (must stay silent for every property)
+import glob as _glob
+for _p in sorted(_glob.glob(ROOT + '/refactorings/*.diff')):
+    _name = _p.split('/')[-1][:-5]
+    for _i in range(1, 21):
+        pm(f'refac-{_name}-C{_i:02d}', f'C{_i:02d}', f'refactorings/{_name}.diff', 'silent', None, 'independent behaviour-preserving refactoring')
